@@ -8,6 +8,7 @@ import Q1t.Proofs.TableauTables
 import Q1t.Proofs.TableauBits
 import Q1t.Proofs.TableauFinite
 import Q1t.Proofs.TableauWitness
+import Q1t.Proofs.TableauContractQ8
 /-!
 # C03 — stabilizer tableau semantics equal state-vector semantics
 
@@ -214,6 +215,93 @@ of representation cannot change per-shot states. -/
 theorem history_independent_n2 (n : Nat) (hn : n = 1 ∨ n = 2) (t1 t2 : Tab) (ψ : Vec)
     (h1 : Reach n (t1, ψ)) (h2 : Reach n (t2, ψ)) : t1 = t2 :=
   history_independent n hn t1 t2 ψ h1 h2
+
+/-! ## the tableau contract of the stabilizer backend — general `n`, any commutative ring
+
+The statements below are over an arbitrary commutative ring `α` with the laws `LawfulAmp` (`i² = −1`, `½ + ½ = 1`,
+conjugation) and, where norms occur, `LawfulSim` (`normSq a = a · conj a`) — ℂ and ℚ(ζ₈) are models.  Vectors
+are `List α` of length `2^n`; `StabG A t ψ` says every signed row of `t`, as the Kronecker-product matrix of C06
+(`TabG.mulVec_pauliMat`), fixes `ψ`.  The conjugation rule of a gate enters through C06's `RuleExact`. -/
+
+section contract
+open Q1t.Proofs.TabG Q1t.LMat Q1t.Spec.Clifford Q1t.Sim Q1t.Proofs.ConjTerm Q1t.Proofs.ConjBridge
+variable {α A : Type} [CommRing α] [Amp α A]
+
+/-- The matrix `σ_{p₀} ⊗ σ_{p₁} ⊗ …` of C06 acts on vectors as the recursive Pauli action used here. -/
+theorem pauli_matrix_action (h : LawfulAmp α A) (r : List P) (v : List α) (hv : v.length = 2 ^ r.length) :
+    mulVec (pauliMat A r : LMat α) v = Q1t.Proofs.TabG.actOps A r v :=
+  mulVec_pauliMat h r v hv
+
+/-- **`normalize` preserves the stabilized vectors whenever it returns** (all `n`, any ring). -/
+theorem normalize_preserves_stabilized (h : LawfulAmp α A) (t t' : Tab) (hwf : t.WF)
+    (hok : t.normalize Q1t.Gen.phaseTable = .ok t') :
+    (∀ ψ : List α, StabG A t' ψ ↔ StabG A t ψ) ∧ t'.n = t.n ∧ t'.WF :=
+  normalize_inv h phaseTable_correct t t' hwf hok
+
+/-- **`apply_gate` turns the tableau of `ψ` into a tableau of `embed n bits M · ψ`, all `n`** — for every
+gate whose conjugation rule is exact for the matrix `M` (C06: every well-formed claiming term with its
+documented matrix), every valid placement, every stabilized vector. -/
+theorem apply_gate_stabilizes (h : LawfulAmp α A) {M : LMat α} {bits : List Nat} {rule : List P → Q1t.Conj.Result}
+    (t t' : Tab) (ψ : List α) (hst : StabG A t ψ) (hv : Spec.validBits t.n bits = true)
+    (hM : WF (2 ^ bits.length) (2 ^ bits.length) M) (hrule : RuleExact A M bits.length rule)
+    (hok : t.applyGate Q1t.Gen.phaseTable (conjOfRule rule) bits = .ok t') :
+    StabG A t' (mulVec (Spec.embed t.n bits M) ψ) ∧ t'.n = t.n :=
+  applyGate_stabilizes h phaseTable_correct t t' ψ hst hv hM hrule hok
+
+/-- **`Random(i)` is sound, all `n`**: row `i` has X/Y on the qubit and is the last such row; the two
+projections of the stabilized vector have the same squared norm, half of the total each. -/
+theorem measure_random_sound [SimAmp α] {nz : α → Prop} (h : LawfulAmp α A) (hs : LawfulSim α A nz) (t : Tab)
+    (ψ : List α) (hst : StabG A t ψ) (q i : Nat) (hm : t.measure q = .ok (.random i)) :
+    (q < t.n ∧ i < t.n ∧ (∃ r, t.rows[i]? = some r ∧ xAt r q = true) ∧
+      ∀ k, i < k → k < t.n → ∃ r, t.rows[k]? = some r ∧ xAt r q = false) ∧
+    normSqSum (Spec.project t.n q true ψ) = normSqSum (Spec.project t.n q false ψ) ∧
+    normSqSum (Spec.project t.n q false ψ) + normSqSum (Spec.project t.n q false ψ) = normSqSum ψ :=
+  ⟨measure_random_inv t q i hm, random_weights h hs t ψ hst q i hm⟩
+
+/-- **`collapse` is sound, all `n`**: after `Random(i)` (row `i` = last row with X/Y on `q`), a returning
+`collapse(i, q, v)` yields a tableau of the projected vector `P_v ψ`. -/
+theorem collapse_sound (h : LawfulAmp α A) (t t' : Tab) (ψ : List α) (hst : StabG A t ψ) (q i : Nat)
+    (hm : t.measure q = .ok (.random i)) (v : Bool) (hok : t.collapse Q1t.Gen.phaseTable i q v = .ok t') :
+    StabG A t' (Spec.project t.n q v ψ) ∧ t'.n = t.n :=
+  let ⟨hq, hi, hxi, hl⟩ := measure_random_inv t q i hm
+  collapse_stabilizes h phaseTable_correct t t' ψ hst q i hq hi hxi hl v hok
+
+/-- **Deterministic outcome from a row `±Z_q`, all `n`**: if the signed row `(v, Z_q)` fixes `ψ` then
+`P_v ψ = ψ`. -/
+theorem deterministic_of_zrow (h : LawfulAmp α A) (n q : Nat) (hq : q < n) (ψ : List α) (hψ : ψ.length = 2 ^ n)
+    (v : Bool) (hfix : Q1t.Proofs.TabG.act (A := A) (rowStr v (zRow n q)) ψ = ψ) : Spec.project n q v ψ = ψ :=
+  project_eq_of_zRow h n q hq ψ hψ v hfix
+
+/-- **Every pair reachable by the operations of the contract is a stabilizer pair of invertible norm, all `n`**
+(relative to `DetShapeHolds`, used only in the step "`reset` after `Deterministic`"). -/
+theorem reachable_sound [SimAmp α] {nz : α → Prop} (n : Nat) (tbl : Q1t.Conj.Table) (noCheck : List String)
+    (h : LawfulAmp α A) (hs : LawfulSim α A nz) (hp : PrimsExact α A tbl noCheck)
+    (hT : TableFacts (A := A) tbl noCheck)
+    (hD : DetShapeHolds (α := α) (A := A) n Q1t.Gen.phaseTable tbl noCheck) (t : Tab) (ψ : List α)
+    (hr : Reach (A := A) α n Q1t.Gen.phaseTable tbl noCheck t ψ) :
+    StabG A t ψ ∧ t.n = n ∧ ∃ u : α, normSqSum ψ * u = 1 :=
+  reach_sound n Q1t.Gen.phaseTable tbl noCheck h hs phaseTable_correct hp hT hD t ψ hr
+
+end contract
+
+/-- **The tableau contract `Sim.TableauOK` of the stabilizer backend (C02) — partial.**
+Full statement: `TableauOK (Reach …) n phaseTable conjOf valid` for the generated tables, unconditionally.
+Proved for all `n` over ℚ(ζ₈): every field (`init`, `scale`, `weight`, `gate`, `basis`, `det`, `rand`, `reset`) with
+`St := Reach` (the pairs reachable by the contract's operations), **relative to the single hypothesis
+`DetShapeHolds`**: in every reachable tableau, a column without X/Y holds exactly one `Z`, in a row that is
+`Z_q` alone.  Missing lemma, precisely: `normalize` applied to `n` independent commuting rows produces such a
+shape (reduced echelon form + a counting-free argument through an explicit Pauli operator that commutes with
+every row and anticommutes with `Z_q`, see the final report).  It is what `Deterministic(v) ⇒ P_v ψ = ψ` and
+the deterministic branch of `reset` need; it holds for all states of `n ≤ 2` (`exhaustive_measure_n2`) and on
+every tableau of the correspondence runs. -/
+theorem tableau_contract_partial (n : Nat)
+    (hD : Q1t.Proofs.TabG.DetShapeHolds (α := Q8) (A := Empty) n Q1t.Gen.phaseTable Q1t.Gen.conjTable
+      Q1t.Gen.conjNoArityCheck) :
+    Q1t.Sim.TableauOK
+      (Q1t.Proofs.TabG.Reach (A := Empty) Q8 n Q1t.Gen.phaseTable Q1t.Gen.conjTable Q1t.Gen.conjNoArityCheck) n
+      Q1t.Gen.phaseTable (Q1t.Proofs.TabG.conjOfT (A := Empty) Q1t.Gen.conjTable Q1t.Gen.conjNoArityCheck)
+      (Q1t.Proofs.TabG.validT (A := Empty) n Q1t.Gen.conjTable) :=
+  Q1t.Proofs.TabG.tableauOK_generated n hD
 
 /-! ## non-vacuity -/
 
